@@ -1,13 +1,12 @@
-import XrsVerif.Driver.Kernels
+import XrsVerif.Driver.All
 /-! line-protocol driver: one request per line on stdin, one reply per line on stdout -/
 open XrsVerif XrsVerif.Wire XrsVerif.Driver
 
 def dispatch (cmd : String) (a : Args) : String :=
-  match cmd with
-  | "ping" => "pong"
-  | "kernel" => cmdKernel a
-  | "kcell" => cmdKCell a
-  | _ => s!"bad-op {cmd}"
+  if cmd == "ping" then "pong" else
+  match allHandlers.find? (·.1 == cmd) with
+  | some (_, h) => h a
+  | none => s!"bad-op {cmd}"
 
 partial def loop (h : IO.FS.Stream) (out : IO.FS.Stream) : IO Unit := do
   let line ← h.getLine
